@@ -73,20 +73,20 @@ def bad_families():
 
 
 def plan(tier):
-    """(family, depth, variant) in the order they are run; the deeper levels come last so that a deadline cuts those"""
+    """Stages, run one after the other; the runs of one stage share the cores.  (family, depth, build).
+    The deepest levels come last so that a tier deadline cuts those."""
+    bad = bad_families()
     if tier == "quick":
-        p = [("main", 3, "plain"), ("split", 3, "plain"), ("files", 4, "plain")]
-        p += [(f, 3, "plain") for f in bad_families()]
-        p += [("main", 2, "asan"), ("split", 2, "asan")]
-    else:
-        # main contains the alphabets of files and attrs, so main d covers them to depth d
-        p = [("main", 4, "plain"), ("split", 4, "plain")]
-        p += [(f, 4, "plain") for f in bad_families()]
-        p += [("main", 3, "asan"), ("split", 3, "asan")]
-        p += [(f, 2, "asan") for f in bad_families()]
-        p += [(f, 5, "plain") for f in bad_families()]
-        p += [("files", 6, "plain"), ("main", 5, "plain")]
-    return p
+        return [[("main", 3, "plain")], [("split", 3, "plain")], [("files", 4, "plain")],
+                [("main", 2, "asan"), ("split", 2, "asan")],
+                [(f, 3, "plain") for f in bad]]
+    # main contains the alphabets of files and attrs, so main d covers them to depth d
+    return [[("main", 4, "plain")], [("split", 4, "plain")],
+            [(f, 4, "plain") for f in bad],
+            [("main", 3, "asan"), ("split", 3, "asan")],
+            [(f, 2, "asan") for f in bad],
+            [(f, 5, "plain") for f in bad],
+            [("files", 6, "plain")], [("main", 5, "plain")]]
 
 
 def _split_pem_certs(text):
@@ -176,68 +176,83 @@ def run(chk, tier, jobs, deadline):
     all_complete = True
     try:
         mat = prepare_material(os.path.join(root, "mat"))
-        the_plan = plan(tier)
-        for n, (family, depth, variant) in enumerate(the_plan):
+        seq = [0]
+
+        def launch(item, njobs):
+            family, depth, variant = item
             left = t_end - time.time()
             if left < 2:
-                chk.deadline_hit = True
-                all_complete = False
-                per_family.append(dict(family=family, depth=depth, build=variant, skipped="tier deadline reached"))
-                continue
-            if variant not in exes:
-                exes[variant] = build_exe(variant)
+                return item, None, None
             env = harnesses.asan_env() if variant == "asan" else None
-            cmd = [exes[variant], "--mat", mat, "--root", os.path.join(root, "r"), "--family", family,
-                   "--depth", str(depth), "--jobs", str(jobs), "--deadline", str(max(1, int(left)))]
+            seq[0] += 1
+            cmd = [exes[variant], "--mat", mat, "--root", os.path.join(root, "r%d" % seq[0]), "--family", family,
+                   "--depth", str(depth), "--jobs", str(njobs), "--deadline", str(max(1, int(left)))]
             r = subprocess.run(cmd, capture_output=True, env=env)
-            out = r.stdout.decode(errors="replace")
-            done = False
-            for line in out.splitlines():
-                try:
-                    j = json.loads(line)
-                except ValueError:
+            return item, r, r.stdout.decode(errors="replace")
+
+        for stage in plan(tier):
+            for variant in set(v for _, _, v in stage):
+                if variant not in exes:
+                    exes[variant] = build_exe(variant)
+            if len(stage) == 1:
+                results = [launch(stage[0], jobs)]
+            else:
+                from concurrent.futures import ThreadPoolExecutor
+                par = max(1, min(len(stage), jobs // 2))
+                with ThreadPoolExecutor(max_workers=par) as ex:
+                    results = list(ex.map(lambda it: launch(it, max(1, jobs // par)), stage))
+            for (family, depth, variant), r, out in results:
+                if r is None:
+                    chk.deadline_hit = True
+                    all_complete = False
+                    per_family.append(dict(family=family, depth=depth, build=variant, skipped="tier deadline reached"))
                     continue
-                k = j.get("kind")
-                if k == "stats":
-                    tot["histories"] += j["histories"]
-                    tot["steps"] += j["steps"]
-                    tot["conn_attempts"] += j["conn_attempts"]
-                    tot["conn_established"] += j["conn_established"]
-                    tot["refused"] += j["conn_refused_as_expected"]
-                    tot["eproto"] += j["bad_material_refused_with_EPROTO"]
-                    tot["keepalive"] += j["keepalive_checks"]
-                    tot["identity"] += j["identity_checks"]
-                    tot["ctx"] += j["ssl_ctx_created"]
-                    tot["crashes"] += j["crashes"]
-                    tot["abandoned"] += j["abandoned"]
-                    tot["infeasible"] += j["infeasible_pruned"]
-                    per_family.append(dict(family=family, build=variant, alphabet=j["alphabet"], depth_requested=depth,
-                                           depth_completed=j["depth_completed"], histories=j["histories"],
-                                           histories_per_level=j["per_level"], steps=j["steps"],
-                                           connections_established=j["conn_established"],
-                                           abandoned=j["abandoned"], wall_s=j["wall_s"], cpu_s=j["cpu_s"]))
-                    if j["depth_completed"] < depth:
-                        all_complete = False
-                elif k == "finding":
-                    sig = j["sig"]
-                    rep = dict(harness="h_cred", family=family, history=j["history"], build=variant,
-                               occurrences_in_family=j["count"],
-                               replay_cmd=replay_cmd(variant, family, j["history"]),
-                               note="python3 engine/run_check.py --replay <this file> lays the material out again first")
-                    chk.finding(sig, "%s  [family %s, shortest history: %s; %d histories of this run show it]" %
-                                (j["text"], family, j["history"], j["count"]), rep)
-                elif k == "sample" and len(samples) < 12 and j["text"].count(",") >= 2:
-                    samples.append(dict(family=family, history=j["text"]))
-                elif k == "broke":
-                    chk.broke("%s: %s" % (family, j["text"]))
-                elif k == "done":
-                    done = True
-                    if j.get("deadline_hit"):
-                        chk.deadline_hit = True
-                        all_complete = False
-            if not done:
-                chk.broke("h_cred %s depth %d produced no result (rc=%d): %s" %
-                          (family, depth, r.returncode, r.stderr.decode(errors="replace")[-600:]))
+                done = False
+                for line in out.splitlines():
+                    try:
+                        j = json.loads(line)
+                    except ValueError:
+                        continue
+                    k = j.get("kind")
+                    if k == "stats":
+                        tot["histories"] += j["histories"]
+                        tot["steps"] += j["steps"]
+                        tot["conn_attempts"] += j["conn_attempts"]
+                        tot["conn_established"] += j["conn_established"]
+                        tot["refused"] += j["conn_refused_as_expected"]
+                        tot["eproto"] += j["bad_material_refused_with_EPROTO"]
+                        tot["keepalive"] += j["keepalive_checks"]
+                        tot["identity"] += j["identity_checks"]
+                        tot["ctx"] += j["ssl_ctx_created"]
+                        tot["crashes"] += j["crashes"]
+                        tot["abandoned"] += j["abandoned"]
+                        tot["infeasible"] += j["infeasible_pruned"]
+                        per_family.append(dict(family=family, build=variant, alphabet=j["alphabet"], depth_requested=depth,
+                                               depth_completed=j["depth_completed"], histories=j["histories"],
+                                               histories_per_level=j["per_level"], steps=j["steps"],
+                                               connections_established=j["conn_established"],
+                                               abandoned=j["abandoned"], wall_s=j["wall_s"], cpu_s=j["cpu_s"]))
+                        if j["depth_completed"] < depth:
+                            all_complete = False
+                    elif k == "finding":
+                        rep = dict(harness="h_cred", family=family, history=j["history"], build=variant,
+                                   occurrences_in_family=j["count"],
+                                   replay_cmd=replay_cmd(variant, family, j["history"]),
+                                   note="python3 engine/run_check.py --replay <this file> lays the material out again first")
+                        chk.finding(j["sig"], "%s  [family %s, shortest history: %s; %d histories of this run show it]" %
+                                    (j["text"], family, j["history"], j["count"]), rep)
+                    elif k == "sample" and len(samples) < 12 and j["text"].count(",") >= 2:
+                        samples.append(dict(family=family, history=j["text"]))
+                    elif k == "broke":
+                        chk.broke("%s: %s" % (family, j["text"]))
+                    elif k == "done":
+                        done = True
+                        if j.get("deadline_hit"):
+                            chk.deadline_hit = True
+                            all_complete = False
+                if not done:
+                    chk.broke("h_cred %s depth %d produced no result (rc=%d): %s" %
+                              (family, depth, r.returncode, r.stderr.decode(errors="replace")[-600:]))
     finally:
         shutil.rmtree(root, ignore_errors=True)
     depths = {}
